@@ -239,7 +239,10 @@ def eval_case(c):
     if c["structure"] == "da-nan":
         Y = Y.copy()
         Y[5] = np.nan                     # the same sample is missing in both fields
-    cplx = lambda z: [v * (1 + 0.5j) for v in z] if isinstance(z, list) else z * (1 + 0.5j)
+    def cplx(z):
+        if isinstance(z, list):
+            return [cplx(v) for v in z]
+        return z + 1j * z.roll(time=3, roll_coords=False) * 0.7      # genuinely complex (not a complex multiple of real data)
     if cross and "Complex" in model:
         X, Y = cplx(X), cplx(Y)
     coslat = c.get("coslat", False)
